@@ -121,9 +121,12 @@ def createExecutor (env : Env) (o : Opts) : Except Exc Plan :=
   -- check_resource_limits (fix 812ce71), executors without block allocation
   if !o.block && (match o.maxCores with | some mc => decide (mc < cores) | none => false) then .error .valueError else
   if !o.block && o.maxCores.isNone && (match o.maxWorkers with | some mw => decide (mw < 1) | none => false) then .error .valueError else
-  let mk (k : Kind) (sp : Spawner) (rd : RD) : Plan :=
-    { kind := k, resolver := false, plot := false, spawner := sp, maxCores := o.maxCores, maxWorkers := o.maxWorkers,
-      rd := rd, cores := cores, fileBackendParam := false }
+  -- check_resource_dict_keys in the constructors of InteractiveExecutor / InteractiveStepExecutor (fix 1bb6f38):
+  -- after the back-end specific deletions the only key a spawner class can reject is an unknown one
+  let mk (k : Kind) (sp : Spawner) (rd : RD) : Except Exc Plan :=
+    if rd.unknown then .error .valueError else
+    .ok { kind := k, resolver := false, plot := false, spawner := sp, maxCores := o.maxCores, maxWorkers := o.maxWorkers,
+          rd := rd, cores := cores, fileBackendParam := false }
   match backend with
   | .fluxAlloc =>
     if o.rd.oversub == some true then .error .valueError else
@@ -131,15 +134,15 @@ def createExecutor (env : Env) (o : Opts) : Except Exc Plan :=
     if o.block then
       match validateWorkers env o.maxCores o.maxWorkers cores false with
       | .error e => .error e
-      | .ok n => if env.flux then .ok (mk (.block n) .flux o.rd) else .error .nameError
-    else if env.flux then .ok (mk .step .flux o.rd) else .error .nameError
+      | .ok n => if env.flux then mk (.block n) .flux o.rd else .error .nameError
+    else if env.flux then mk .step .flux o.rd else .error .nameError
   | .slurmAlloc =>
     if o.nesting then .error .valueError else
     if o.block then
       match validateWorkers env o.maxCores o.maxWorkers cores false with
       | .error e => .error e
-      | .ok n => .ok (mk (.block n) .srun o.rd)
-    else .ok (mk .step .srun o.rd)
+      | .ok n => mk (.block n) .srun o.rd
+    else mk .step .srun o.rd
   | .local =>
     if o.nesting then .error .valueError else
     if o.rd.gpus.getD 0 != 0 then .error .typeError else
@@ -148,8 +151,8 @@ def createExecutor (env : Env) (o : Opts) : Except Exc Plan :=
     if o.block then
       match validateWorkers env o.maxCores o.maxWorkers cores true with
       | .error e => .error e
-      | .ok n => .ok (mk (.block n) .mpiexec rd)
-    else .ok (mk .step .mpiexec rd)
+      | .ok n => mk (.block n) .mpiexec rd
+    else mk .step .mpiexec rd
   | _ => .error .valueError
 
 /-- `Executor.__new__` -/
@@ -192,12 +195,17 @@ def submitCheck (p : Plan) (pc : RD) (fnHasResourceDictParam : Bool) : Except Ex
     | none => false
   -- check_cores_and_threads (fix 55646a2) in `ExecutorBase.submit`
   let nonPos : Bool := decide (cores < 1) || decide (pc.threads.getD 1 < 1)
+  -- check_resource_dict_keys in `ExecutorBase.submit` (fix 1bb6f38): keys the spawner class does not take
+  let badKey : Bool := pc.unknown || (match p.spawner with
+    | .mpiexec => pc.gpus.isSome || pc.extra != .absent
+    | _ => false)
   match p.kind with
   | .block _ =>
     if !pc.isEmpty then .error .valueError else
     if p.resolver && (nonPos || tooBig) then .error .valueError else
     if fnHasResourceDictParam then .error .valueError else .ok ()
   | .step =>
+    if badKey then .error .valueError else
     if nonPos || tooBig then .error .valueError else
     if fnHasResourceDictParam then .error .valueError else .ok ()
   | .file =>
